@@ -417,6 +417,7 @@ func c07SysRun(e *vh.Env, c c07Sys, o *vh.Out, prop string) {
 		before := bes[0].Count() + bes[1].Count()
 		t := time.Since(origin)
 		rs := vh.Do(sys.Addr, vh.RawReq{Method: "GET", Target: "/r", Headers: [][2]string{{vh.ScriptHeader, sc.Encode()}}, TimeoutMs: 60000, Instant: true})
+		vh.Settle()
 		arrived := bes[0].Count() + bes[1].Count() - before
 		body := string(rs.Body)
 		var out vh.Outcome
